@@ -56,9 +56,17 @@ def rawQuery (rawPath : Bytes) : Bytes :=
   | some (_, q) => 63 :: q
   | none => []
 
+/-- bytes of the raw query passed on unchanged: unreserved, delimiters, '%' (existing escapes)
+    (`QByteArray::toPercentEncoding("?/:@!$&'()*+,;=%#[]")`) -/
+def queryKeep (c : UInt8) : Bool :=
+  pathKeep c || c == 63 || c == 37 || c == 35 || c == 91 || c == 93
+
+/-- the query part of the upstream request target -/
+def upstreamQuery (rawPath : Bytes) : Bytes := pctEncode queryKeep (rawQuery rawPath)
+
 /-- the upstream request head written by `onUpstreamConnected` -/
 def upstreamHead (c : Cfg) (s : Sock) : Bytes :=
-  let target := 47 :: pctEncode pathKeep c.path ++ rawQuery s.rawPath
+  let target := 47 :: pctEncode pathKeep c.path ++ upstreamQuery s.rawPath
   let line := methodToString s.method ++ [SP] ++ target ++ lit [' ','H','T','T','P','/','1','.','1'] ++ CRLF
   let h := s.reqHeaders
   let fwd := HeaderMap.values XFF h              -- most recently received first
